@@ -1019,3 +1019,139 @@ pub fn c05_decoded_case(ctx: &mut Ctx, prot: &MProt, aad: &[u8]) {
     }
     check(ctx, "decoded CoseEncrypt0::decrypt", "Encrypt0", seen);
 }
+
+// ---------------------------------------------------------------------------------------------
+// A message produced by a builder's create helper and then edited in place: it was never parsed, so
+// its protected header has no received bytes and the structures must follow the edited header.
+
+fn edited(h: &MHeader) -> MHeader {
+    let mut e = h.clone();
+    e.rest.push((crate::model::MLabel::Int(-70010), Item::Bool(true)));
+    e
+}
+fn edit_in_place(p: &mut coset::ProtectedHeader) {
+    p.header.rest.push((coset::Label::Int(-70010), coset::cbor::value::Value::Bool(true)));
+}
+
+pub fn built_then_edited_case(ctx: &mut Ctx, family: &str, prot: &MProt, aad: &[u8], payload: &[u8]) {
+    if prot.bytes.is_some() || prot.header.rest.iter().any(|(l, _)| *l == crate::model::MLabel::Int(-70010)) {
+        return;
+    }
+    let h = match capi::b_header(&prot.header) {
+        Some(h) => h,
+        None => return,
+    };
+    let pe = model::prot_slot(&MProt { bytes: None, header: edited(&prot.header) });
+    let fallible = ctx.rng.coin();
+    match family {
+        "Sig_structure" => {
+            let b = coset::CoseSign1Builder::new().protected(h.clone()).payload(payload.to_vec());
+            let built = guard(|| if fallible { b.try_create_signature(aad, |_d| -> Result<Vec<u8>, ()> { Ok(vec![1]) }).map(|b| b.build()).ok() } else { Some(b.create_signature(aad, |_d| vec![1]).build()) });
+            if let Ok(Some(mut m)) = built {
+                edit_in_place(&mut m.protected);
+                let want = model::structure("Signature1", &[&pe, aad, payload]);
+                let mut seen = None;
+                let _ = guard(|| m.verify_signature(aad, |_s, d| -> Result<(), ()> {
+                    seen = Some(d.to_vec());
+                    Ok(())
+                }));
+                expect_eq(ctx, if fallible { "built by try_create_signature, edited, verify_signature" } else { "built by create_signature, edited, verify_signature" }, &seen.unwrap_or_default(), &want, "Sig_structure", &tuple_desc("Signature1", &[Some(&pe), None, Some(aad), Some(payload)]));
+            }
+            let sig = coset::CoseSignature::default();
+            let b = coset::CoseSignBuilder::new().protected(h).payload(payload.to_vec());
+            let built = guard(|| if fallible { b.try_add_created_signature(sig.clone(), aad, |_d| -> Result<Vec<u8>, ()> { Ok(vec![1]) }).map(|b| b.build()).ok() } else { Some(b.add_created_signature(sig.clone(), aad, |_d| vec![1]).build()) });
+            if let Ok(Some(mut m)) = built {
+                edit_in_place(&mut m.protected);
+                let want = model::structure("Signature", &[&pe, &[], aad, payload]);
+                let mut seen = None;
+                let _ = guard(|| m.verify_signature(0, aad, |_s, d| -> Result<(), ()> {
+                    seen = Some(d.to_vec());
+                    Ok(())
+                }));
+                expect_eq(ctx, if fallible { "built by try_add_created_signature, edited, verify_signature" } else { "built by add_created_signature, edited, verify_signature" }, &seen.unwrap_or_default(), &want, "Sig_structure", &tuple_desc("Signature", &[Some(&pe), Some(&[]), Some(aad), Some(payload)]));
+            }
+        }
+        "MAC_structure" => {
+            for is0 in [true, false] {
+                let text = if is0 { "MAC0" } else { "MAC" };
+                let want = model::structure(text, &[&pe, aad, payload]);
+                let td = tuple_desc(text, &[Some(&pe), Some(aad), Some(payload)]);
+                let mut seen = None;
+                if is0 {
+                    let b = coset::CoseMac0Builder::new().protected(h.clone()).payload(payload.to_vec());
+                    let built = guard(|| if fallible { b.try_create_tag(aad, |_d| -> Result<Vec<u8>, ()> { Ok(vec![1]) }).map(|b| b.build()).ok() } else { Some(b.create_tag(aad, |_d| vec![1]).build()) });
+                    if let Ok(Some(mut m)) = built {
+                        edit_in_place(&mut m.protected);
+                        let _ = guard(|| m.verify_tag(aad, |_t, d| -> Result<(), ()> {
+                            seen = Some(d.to_vec());
+                            Ok(())
+                        }));
+                    }
+                } else {
+                    let b = coset::CoseMacBuilder::new().protected(h.clone()).payload(payload.to_vec());
+                    let built = guard(|| if fallible { b.try_create_tag(aad, |_d| -> Result<Vec<u8>, ()> { Ok(vec![1]) }).map(|b| b.build()).ok() } else { Some(b.create_tag(aad, |_d| vec![1]).build()) });
+                    if let Ok(Some(mut m)) = built {
+                        edit_in_place(&mut m.protected);
+                        let _ = guard(|| m.verify_tag(aad, |_t, d| -> Result<(), ()> {
+                            seen = Some(d.to_vec());
+                            Ok(())
+                        }));
+                    }
+                }
+                let name = format!("built by Cose{}Builder::{}, edited, verify_tag", if is0 { "Mac0" } else { "Mac" }, if fallible { "try_create_tag" } else { "create_tag" });
+                expect_eq(ctx, &name, &seen.unwrap_or_default(), &want, "MAC_structure", &td);
+            }
+        }
+        _ => {
+            for kind in 0..3 {
+                let (text, c) = match kind {
+                    0 => ("Encrypt", EncryptionContext::CoseEncrypt),
+                    1 => ("Encrypt0", EncryptionContext::CoseEncrypt0),
+                    _ => ("Mac_Recipient", EncryptionContext::MacRecipient),
+                };
+                let want = model::structure(text, &[&pe, aad]);
+                let td = tuple_desc(text, &[Some(&pe), Some(aad)]);
+                let mut seen = None;
+                let f_ok = |_p: &[u8], _d: &[u8]| -> Result<Vec<u8>, ()> { Ok(vec![1]) };
+                let f = |_p: &[u8], _d: &[u8]| vec![1u8];
+                match kind {
+                    0 => {
+                        let b = coset::CoseEncryptBuilder::new().protected(h.clone());
+                        let built = guard(|| if fallible { b.try_create_ciphertext(payload, aad, f_ok).map(|b| b.build()).ok() } else { Some(b.create_ciphertext(payload, aad, f).build()) });
+                        if let Ok(Some(mut m)) = built {
+                            edit_in_place(&mut m.protected);
+                            let _ = guard(|| m.decrypt(aad, |_c, d| -> Result<Vec<u8>, ()> {
+                                seen = Some(d.to_vec());
+                                Ok(vec![])
+                            }));
+                        }
+                    }
+                    1 => {
+                        let b = coset::CoseEncrypt0Builder::new().protected(h.clone());
+                        let built = guard(|| if fallible { b.try_create_ciphertext(payload, aad, f_ok).map(|b| b.build()).ok() } else { Some(b.create_ciphertext(payload, aad, f).build()) });
+                        if let Ok(Some(mut m)) = built {
+                            edit_in_place(&mut m.protected);
+                            let _ = guard(|| m.decrypt(aad, |_c, d| -> Result<Vec<u8>, ()> {
+                                seen = Some(d.to_vec());
+                                Ok(vec![])
+                            }));
+                        }
+                    }
+                    _ => {
+                        let b = coset::CoseRecipientBuilder::new().protected(h.clone());
+                        let built = guard(|| if fallible { b.try_create_ciphertext(c, payload, aad, f_ok).map(|b| b.build()).ok() } else { Some(b.create_ciphertext(c, payload, aad, f).build()) });
+                        if let Ok(Some(mut m)) = built {
+                            edit_in_place(&mut m.protected);
+                            let _ = guard(|| m.decrypt(c, aad, |_c, d| -> Result<Vec<u8>, ()> {
+                                seen = Some(d.to_vec());
+                                Ok(vec![])
+                            }));
+                        }
+                    }
+                }
+                let name = format!("built by {} builder::{}, edited, decrypt", text, if fallible { "try_create_ciphertext" } else { "create_ciphertext" });
+                expect_eq(ctx, &name, &seen.unwrap_or_default(), &want, "Enc_structure", &td);
+            }
+        }
+    }
+}
